@@ -60,7 +60,12 @@ def rules(model: Model, tier: str) -> List[RuleResult]:
     from .c16 import _one_context
     X = RuleResult(PROP, "C09-X", "at most one pure function's useobjparams context is open at a time (methods of one object would overwrite each other's installed tensors)", min_instances=7)
     _one_context(model, X, whole_package=True)
-    return [R6, S, D, U, I, G, N, K, M, X, F9, SA]
+    # the Jacobian / Hessian operator re-evaluates the user's function: always under enable_grad and useobjparams(self.objparams) - in both
+    # products, whatever private helper the re-evaluation lives in (the implicit backward of the root finder applies J^H through _rmv)
+    from .c17 import _connect
+    J9 = RuleResult(PROP, "C09-J", "the jac / hess operator re-evaluates the function under useobjparams(self.objparams) in both products", min_instances=4)
+    _connect(model, J9)
+    return [R6, S, D, U, I, G, N, K, M, X, F9, SA, J9]
 
 
 # ------------------------------------------------------------------------------------------------- S
